@@ -33,9 +33,15 @@ CHECKS = {'C03': {'level': 'exploration',
          'assumptions': ['the inf-norm family uses sqrt(n) A (sigma_min >= sqrt(n) >= 1): with sigma_min(A) >= 1 alone '
                          '||Az||_inf >= ||z||_2 / sqrt(n) only, which is not the sharpness the statement presupposes',
                          'at n = 1 the coinciding members of the alphabets (A, x*, x0) are run once',
-                         'a run whose child process dies with a signal (observed: heap overflow in bundle_t::append '
-                         'for bundle::max_size = 2, which depends on uninitialised memory) is counted under the '
-                         'outcome CRASHED, listed as a cap and not judged: the statement speaks about returned states',
+                         'bundle_t::delete_largest reads an uninitialised slot when bundle::max_size = 2 '
+                         '(bundle.cpp:105); the runs are made deterministic with mallopt(M_PERTURB, 0x55): fresh heap '
+                         'memory reads as a tiny negative double, the same branch as zero-filled pages (with a large '
+                         'positive content, C03_PERTURB=128, the same runs write past the end of the bundle, '
+                         'bundle.cpp:148, and mostly die)',
+                         'a run whose child process dies with a signal (observed: the heap overflow in '
+                         'bundle_t::append, also for fpba2 with bundle::max_size = 5 in the thorough tier) is counted '
+                         'under the outcome CRASHED, listed as a cap and not judged: the statement speaks about '
+                         'returned states',
                          'a run that needs more than max(60 s quick / 120 s thorough, 50 x the median) CPU time is '
                          'aborted at its next function evaluation and run again alone at the end of the shard with '
                          'four times that limit; only if it exceeds that too it is listed as a potential hang (cap), '
